@@ -15,7 +15,7 @@ CHECKS = {
     "st_utf_conv_priv.h": ["C02", "C03", "C01"],
     "st_utf_conv.h": ["C03", "C01", "C02"],
     "st_charbuffer.h": ["C05", "C06", "C04", "C19"],
-    "st_string_priv.h": ["C07", "C06", "C09", "C08"],
+    "st_string_priv.h": ["C07", "C06", "C09", "C08", "C12", "C13"],
     "st_codecs.h": ["C15", "C14"],
     "st_codecs_priv.h": ["C15", "C14"],
     "st_format.h": ["C11", "C10", "C17"],
